@@ -44,6 +44,7 @@ type Result struct {
 	Labels   []string // classification buckets of this case
 	NT       bool     // non-trivial by the property's stated rule
 	Excluded string   // non-empty: case belongs to a known-finding class and was not judged
+	Stripped []string // known-finding classes whose part of the case was removed before judging (counted)
 	Err      error    // non-nil: the property is violated by this case
 }
 
@@ -183,6 +184,9 @@ func (c *Collector) RecordHash(h uint64, res Result, sample func() any) {
 		return
 	}
 	c.Evaluations++
+	for _, s := range res.Stripped {
+		c.Excluded[s]++
+	}
 	for _, l := range res.Labels {
 		c.Buckets[l]++
 	}
